@@ -1642,10 +1642,10 @@ func ruleEndStamped(r *Run, rule string, m *Machine) {
 				if ended[base] {
 					continue
 				}
-				if s.owner == "workflow.Block" && blockDelegates[fn.Key] {
+				if s.owner == "workflow.Block" && (blockDelegates[fn.Key] || privateToDelegate(r, fn.Key, blockDelegates)) {
 					continue
 				}
-				if s.owner == "workflow.Plan" && planDelegates[fn.Key] {
+				if s.owner == "workflow.Plan" && (planDelegates[fn.Key] || privateToDelegate(r, fn.Key, planDelegates)) {
 					continue
 				}
 				if bad[s.owner] == "" {
@@ -1706,4 +1706,14 @@ func ruleEndStamped(r *Run, rule string, m *Machine) {
 func isZeroTimeLit(e ast.Expr) bool {
 	cl, ok := ast.Unparen(e).(*ast.CompositeLit)
 	return ok && len(cl.Elts) == 0 && strings.HasSuffix(ExprStr(cl.Type), "Time")
+}
+
+// privateToDelegate: the function is a private helper (a piece) of one of the delegating functions.
+func privateToDelegate(r *Run, key string, delegates map[string]bool) bool {
+	for d := range delegates {
+		if r.P.CallGraph().PrivateTo(key, d) {
+			return true
+		}
+	}
+	return false
 }
